@@ -26,9 +26,7 @@ import (
 	"math"
 	"math/big"
 	mrand "math/rand"
-	"os"
 	"regexp"
-	"runtime/debug"
 	"strconv"
 	"strings"
 	"time"
@@ -518,14 +516,6 @@ func execRdc(t []string) string {
 var invalidCodeRe = regexp.MustCompile(`invalid code [0-9a-f]`)
 
 func execRcr(t []string) string {
-	if os.Getenv("C03_DEBUG") != "" {
-		defer func() {
-			if e := recover(); e != nil {
-				debug.PrintStack()
-				panic(e)
-			}
-		}()
-	}
 	code := exact(hx.UnHex(t[1]))
 	params := config.GetDefaultParams()
 	committee := crstate.NewCommittee(params, checkpoint.NewManager(params))
